@@ -48,7 +48,31 @@ def gen(seed, tier):
     return hs_gen.generate(seed, tier, n=8000 if tier == "quick" else 60000, mix=MIX)
 
 
+def rerun_if_timeout(check, r):
+    """a per-scenario wall-clock timeout of the harness on a loaded machine is not a verdict: run that scenario
+    once more, alone (a real livelock times out again)"""
+    impl = r.get("impl")
+    if impl is not None and not any(l.startswith("X timeout") for l in impl): return r
+    if r.get("retried"): return r
+    try:
+        import vlib
+        from props.common import run_batch, SIMDRV_SRC
+        exe, err = vlib.build_harness("simdrv", SIMDRV_SRC)
+        wd = vlib.workdir(check.prop + "rt")
+        rr = run_batch(exe, check.mode, [r["scn"]], wd, "rt%d" % os.getpid())
+        try: os.rmdir(wd)
+        except OSError: pass
+        x = list(rr.values())[0]; x["retried"] = True
+        r.update(x)
+    except Exception:
+        pass
+    return r
+
+
 class Check(ScenarioCheck):
+    def evaluate(self, r):
+        return ScenarioCheck.evaluate(self, rerun_if_timeout(self, r))
+
     def extra_cov(self, results):
         return dict(c07_coverage=dict(AGG))
 
